@@ -27,6 +27,8 @@ type World struct {
 	Tokens   []types.CoinID
 	Pools    [][2]types.CoinID
 	Orders   []uint32
+	OrderOf  map[uint32]orderRef // accepted limit orders: owner and coins
+	Locks    []lockRef           // accepted Lock transactions
 	Cands    []types.Pubkey // candidates known to exist (genesis + declared)
 	NextVal  int
 	Symbols  int
@@ -127,6 +129,18 @@ func (w *World) gasCoin() types.CoinID {
 	return 0
 }
 
+type lockRef struct {
+	Addr  types.Address
+	Coin  types.CoinID
+	Value *big.Int
+	Due   uint64
+}
+
+type orderRef struct {
+	Owner     Acct
+	Sell, Buy types.CoinID
+}
+
 type GenTx struct {
 	Kind   string
 	Raw    []byte
@@ -181,6 +195,8 @@ func (w *World) Gen() *GenTx {
 		a := w.acct()
 		var typ transaction.TxType
 		var data interface{}
+		var fixedGas types.CoinID
+		useFixedGas := false
 		switch k {
 		case "send":
 			c := w.coin()
@@ -271,7 +287,11 @@ func (w *World) Gen() *GenTx {
 		case "lock":
 			c := w.coin()
 			a = w.holder(c)
-			typ, data = transaction.TypeLock, transaction.LockData{DueBlock: uint32(w.N.Height + 2 + int64(w.R.Intn(40))), Coin: c, Value: w.part(a, c)}
+			due := w.N.Height + 2 + int64(w.R.Intn(40))
+			if w.R.Intn(4) == 0 { // far in the future: beyond the unbond / move periods
+				due = w.N.Height + 600 + int64(w.R.Intn(3000))
+			}
+			typ, data = transaction.TypeLock, transaction.LockData{DueBlock: uint32(due), Coin: c, Value: w.part(a, c)}
 		case "candon", "candoff":
 			pk := w.cand()
 			if o, ok := w.Owner[pk]; ok && w.R.Intn(6) != 0 {
@@ -297,7 +317,11 @@ func (w *World) Gen() *GenTx {
 			if !found {
 				continue
 			}
-			typ, data = transaction.TypeCreateSwapPool, transaction.CreateSwapPoolData{Coin0: c0, Coin1: c1, Volume0: new(big.Int).Add(w.part(a, c0), Z(100000)), Volume1: new(big.Int).Add(w.part(a, c1), Z(100000))}
+			v0, v1 := new(big.Int).Add(w.part(a, c0), Z(100000)), new(big.Int).Add(w.part(a, c1), Z(100000))
+			if w.R.Intn(4) == 0 { // a small pool: a commission swap through it moves its price noticeably
+				v0, v1 = pip(int64(5+w.R.Intn(20))), pip(int64(5+w.R.Intn(20)))
+			}
+			typ, data = transaction.TypeCreateSwapPool, transaction.CreateSwapPoolData{Coin0: c0, Coin1: c1, Volume0: v0, Volume1: v1}
 		case "addliq":
 			p, ok := w.pool()
 			if !ok {
@@ -354,6 +378,14 @@ func (w *World) Gen() *GenTx {
 				vb.Div(vb, Z(1000))
 			}
 			vb.Add(vb, Z(20000000000))
+			if w.R.Intn(4) == 0 && x0 != nil && x0.Sign() > 0 {
+				// a tiny order at 1.000..1.015 of the pool price: the next trade (or a commission swap) through the pool fills it
+				vs = new(big.Int).Mul(Z(int64(1+w.R.Intn(50))), ZS("1000000000000000"))
+				vb = new(big.Int).Div(new(big.Int).Mul(vs, x1), x0)
+				vb.Mul(vb, Z(int64(1000+w.R.Intn(16))))
+				vb.Div(vb, Z(1000))
+				vb.Add(vb, Z(1))
+			}
 			typ, data = transaction.TypeAddLimitOrder, transaction.AddLimitOrderData{CoinToSell: p[0], ValueToSell: vs, CoinToBuy: p[1], ValueToBuy: vb}
 		case "remorder":
 			id := uint32(1 + w.R.Intn(len(w.Orders)+2))
@@ -361,6 +393,13 @@ func (w *World) Gen() *GenTx {
 				id = w.Orders[w.R.Intn(len(w.Orders))]
 			}
 			typ, data = transaction.TypeRemoveLimitOrder, transaction.RemoveLimitOrderData{ID: id}
+			if o, ok := w.OrderOf[id]; ok && w.R.Intn(4) != 0 {
+				a = o.Owner
+				if w.R.Bool() {
+					// pay the commission in the coin the order wants to buy: the commission swap runs through the order's own pool
+					fixedGas, useFixedGas = o.Buy, true
+				}
+			}
 		case "redeem":
 			// the sender redeems a check issued by another account
 			cc := w.coin()
@@ -404,6 +443,9 @@ func (w *World) Gen() *GenTx {
 			continue
 		}
 		gas := w.gasCoin()
+		if useFixedGas {
+			gas = fixedGas
+		}
 		nonce := w.nextNonce(a)
 		w.nonce[a.Addr] = nonce + 1 // optimistic: assumes this transaction is accepted
 		gp := uint32(1)
@@ -522,9 +564,15 @@ func (w *World) Observe(g *GenTx, r TxResult) {
 		w.Stakes = append(w.Stakes, stakeRef{g.Sender, d.PubKey, d.Coin})
 	case transaction.DeclareCandidacyData:
 		w.Stakes = append(w.Stakes, stakeRef{g.Sender, d.PubKey, d.Coin})
+	case transaction.LockData:
+		w.Locks = append(w.Locks, lockRef{g.Sender.Addr, d.Coin, new(big.Int).Set(d.Value), uint64(d.DueBlock)})
 	case transaction.AddLimitOrderData:
 		if id, err := strconv.Atoi(r.Tags["tx.order_id"]); err == nil {
 			w.Orders = append(w.Orders, uint32(id))
+			if w.OrderOf == nil {
+				w.OrderOf = map[uint32]orderRef{}
+			}
+			w.OrderOf[uint32(id)] = orderRef{g.Sender, d.CoinToSell, d.CoinToBuy}
 		}
 	}
 }
